@@ -5,9 +5,9 @@ namespace jv {
 
 static const std::vector<std::string> ALL = {"A/bmi2-adx", "A/baseline", "As/static-bmi2", "B/portable64", "C/portable32"};
 static const std::vector<std::string> ALLG = {"A/bmi2-adx", "A/baseline", "As/static-bmi2", "B/portable64", "C/portable32", "G/g++-asm"};
-static const std::vector<std::string> ALLGARM = {"A/bmi2-adx", "A/baseline", "As/static-bmi2", "B/portable64", "C/portable32", "D/portable64-O0", "G/g++-asm", "ARM64/interp", "ARMv6M/interp"};
-static const std::vector<std::string> DBG = {"D/portable64-O0"};
-static const char* DBGNOTE = "the debug build (-O0, portable code): nothing an optimiser's use of __restrict, of evaluation order or of dead stores could mask (20x slower)";
+static const std::vector<std::string> ALLGARM = {"A/bmi2-adx", "A/baseline", "As/static-bmi2", "B/portable64", "C/portable32", "D/portable32-O0", "G/g++-asm", "ARM64/interp", "ARMv6M/interp"};
+static const std::vector<std::string> DBG = {"D/portable32-O0"};
+static const char* DBGNOTE = "the debug build (-O0, portable code, 32-bit words): nothing an optimiser's use of __restrict, of evaluation order or of dead stores could mask (50x slower)";
 static const std::vector<std::string> FAST = {"A/bmi2-adx", "A/baseline", "As/static-bmi2", "B/portable64"};
 
 static Batch mk(const std::string& sc, uint64_t runs, const std::vector<std::string>& reps, const std::string& mode = "single", std::map<std::string, int64_t> knobs = {}, const std::string& note = "") {
